@@ -1,11 +1,20 @@
 #!/bin/sh
-# setup_cmd: regenerate Gen + registries from /repo's working tree, build every Lean module
-# (models, theorems) and one model-driver executable per property.
+# setup_cmd: regenerate Gen + registries from /repo's working tree, then build, per property, its
+# theorem module(s) and its model-driver executable.
 cd "$(dirname "$0")" || exit 2
 /venv/bin/python -m harness.gen || exit 1
+targets=$(/venv/bin/python - <<'PY'
+import importlib, os
+out = []
+d = os.path.join("harness", "props")
+for f in sorted(os.listdir(d)):
+    if f.startswith("C") and f.endswith(".py"):
+        m = importlib.import_module("harness.props." + f[:-3])
+        out += list(getattr(m, "LEAN_TARGETS", ["Aiortc.Props." + f[:-3]]))
+        if getattr(m, "DRIVERS", []):
+            out.append("drv_" + f[:-3])
+print(" ".join(out))
+PY
+)
 cd lean || exit 2
-lake build Aiortc || exit 1
-for f in Drivers/C*.lean; do
-  p=$(basename "$f" .lean)
-  lake build "drv_$p" || exit 1
-done
+lake build Aiortc $targets
